@@ -15,7 +15,7 @@
    encoders for every source format, destination re-read and compared with the composed specifications of the
    operations, which are themselves the theorems of C09-C15): correspondence/exploration, not proof. *)
 From Coq Require Import List ZArith NArith.
-From Astisub Require Import Kit.Base Kit.Str Model.Files Model.Ops Model.Srt Model.Vtt Model.Conv Model.ConvOps Model.Plain Model.PlainOps Proofs.FilesProofs.
+From Astisub Require Import Kit.Base Kit.Str Model.Files Model.Ops Model.Srt Model.Vtt Model.Conv Model.ConvOps Model.Plain Model.PlainOps Model.Cli Proofs.FilesProofs.
 From Astisub Require Import Proofs.SrtProofs Proofs.VttDoc Proofs.ConvProofs Proofs.ConvOpsProofs Proofs.PlainProofs Proofs.PlainOpsProofs.
 From Astisub Require Import Model.PlainSsa Proofs.PlainSsaProofs.
 From Astisub Require Import Model.Stl Model.PlainStl Proofs.PlainStlProofs.
@@ -129,6 +129,17 @@ Proof. exact ex_plain_stl_ok. Qed.
 Theorem C07_ttml_plain_faithful : plain_faithful 1000000 ttml_plain_ok ttml_enc ttml_dec.
 Proof. exact ttml_plain_faithful. Qed.
 Print Assumptions C07_ttml_plain_faithful.
+(* the command-line tool: every sub-command with valid flags applies its one operation between the two codecs (cli_ops is
+   the flag validation of astisub/main.go; the CLI binary's output bytes are compared with cli_run for every sub-command,
+   every pair of codecs and invalid flag values, suite cliplain) *)
+Theorem C07_cli : forall uA okA encA decA uB okB encB decB,
+  plain_faithful uA okA encA decA -> plain_faithful uB okB encB decB ->
+  forall a ops p, cli_ops a = Ok ops -> okA p -> okB (ops_plain ops (ptrunc uA p)) ->
+  exists src dst, encA p = Ok src /\ cli_run decA encB a src = Ok dst /\
+                  decB dst = Ok (ptrunc uB (ops_plain ops (ptrunc uA p))).
+Proof. exact cli_pair. Qed.
+Print Assumptions C07_cli.
+
 Example C07_plain_example : srt_plain_ok ex_plain /\ vtt_plain_ok (ptrunc 1000000 ex_plain).
 Proof. split; [exact ex_plain_srt_ok | exact ex_plain_vtt_ok]. Qed.
 
